@@ -53,6 +53,10 @@ class _WSTransport:
         if not self.disconnecting:
             self.disconnecting = True
             self.conn.closing = True
+            # Autobahn keeps parsing what it already read: frames that arrived in the same read as the
+            # frame whose handler is running right now are still delivered (DESIGN 2.9 b)
+            if self.conn.world._delivering is self.conn:
+                self.conn.late = len(self.conn.s2c)
 
     def abortConnection(self):
         self.loseConnection()
@@ -84,6 +88,7 @@ class FakeWS(protocol.Protocol):
 
 
 _rendezvous.WSFactory.protocol = FakeWS
+log.startLoggingWithObserver(lambda ev: None, setStdout=False)     # keep Twisted's default observer quiet
 
 
 class Conn:
@@ -95,6 +100,7 @@ class Conn:
         self.s2c = collections.deque()
         self.state = "open"       # open | dead
         self.closing = False      # client called loseConnection()
+        self.late = 0             # frames still delivered although closing (coalesced with the current one)
         self.ws = None
         self.wrapper = None
         self.replay_order = None
@@ -107,24 +113,43 @@ class Conn:
 class Delegate:
     def __init__(self, client):
         self.c = client
+        self.armed = None      # event kind whose handler calls close() re-entrantly
+
+    def _maybe_close(self, kind):
+        if self.armed == kind:
+            self.armed = None
+            cl = self.c
+            cl.close_called = True
+            cl.reent_closed = True
+            cl.world.tracker_hook("reent_close", cl)
+            try:
+                cl.w.close()
+            except Exception as e:
+                cl.api_errors.append(("close", e))
 
     def wormhole_got_welcome(self, welcome):
         self.c.ev("welcome", welcome)
+        self._maybe_close("welcome")
 
     def wormhole_got_code(self, code):
         self.c.ev("code", code)
+        self._maybe_close("code")
 
     def wormhole_got_unverified_key(self, key):
         self.c.ev("key", key)
+        self._maybe_close("key")
 
     def wormhole_got_verifier(self, verifier):
         self.c.ev("verifier", verifier)
+        self._maybe_close("verifier")
 
     def wormhole_got_versions(self, versions):
         self.c.ev("versions", versions)
+        self._maybe_close("versions")
 
     def wormhole_got_message(self, msg):
         self.c.ev("message", msg)
+        self._maybe_close("message")
 
     def wormhole_closed(self, result):
         self.c.ev("closed", result)
@@ -144,8 +169,9 @@ class Client:
         self.fired = []            # automat transitions of the current step
         with pinned_urandom(side):
             if mode == "delegated":
+                self.delegate = Delegate(self)
                 self.w = wormhole.create(appid, RELAY_URL, reactor, versions=versions or {},
-                                         delegate=Delegate(self))
+                                         delegate=self.delegate)
             else:
                 self.w = wormhole.create(appid, RELAY_URL, reactor, versions=versions or {},
                                          dilation=dilation or None)
@@ -219,6 +245,8 @@ class MailboxWorld:
         self.logged = []            # log.err'd failures
         self.trace = []
         self.stepno = 0
+        self._delivering = None
+        self.tracker_hook = lambda what, cl: None
         self._observer = self._log_observer
         log.addObserver(self._observer)
         reactor.services[RELAY_PORT] = self._ws_connected
@@ -345,7 +373,7 @@ class MailboxWorld:
                 acts.append({"a": "Serve", "k": conn.id})
             if conn.s2c and not conn.closing:
                 acts.append({"a": "Deliver", "k": conn.id})
-            if conn.s2c and conn.closing and faults:
+            if conn.s2c and conn.closing and conn.late > 0:
                 acts.append({"a": "LateDeliver", "k": conn.id})
             if conn.closing:
                 acts.append({"a": "CloseDone", "k": conn.id})
@@ -392,6 +420,14 @@ class MailboxWorld:
     def _do_ConnFail(self, act):
         cl = self.clients[act["c"]]
         reactor.refuse(self._attempt_of(cl))
+        # HostnameEndpoint reports the failure when its 0.3 s attempt loop next runs
+        t0 = reactor.seconds()
+        while True:
+            fut = [dc for dc in reactor.future() if dc.getTime() <= t0 + 0.5]
+            if not fut:
+                break
+            reactor.run_call(fut[0])
+            self.settle()
 
     def _do_Retry(self, act):
         cl = self.clients[act["c"]]
@@ -402,20 +438,32 @@ class MailboxWorld:
         self.server.handle(conn, conn.c2s.popleft())
 
     def _deliver(self, conn, msg):
-        self._call_entry(conn.client, "ws_message", conn.ws._RC.ws_message, dict_to_bytes(msg))
+        self._delivering = conn
+        try:
+            self._call_entry(conn.client, "ws_message", conn.ws._RC.ws_message, dict_to_bytes(msg))
+        finally:
+            self._delivering = None
 
     def _do_Deliver(self, act):
         conn = self.conn(act["k"])
         self._deliver(conn, conn.s2c.popleft())
 
-    _do_LateDeliver = _do_Deliver
+    def _do_LateDeliver(self, act):
+        conn = self.conn(act["k"])
+        conn.late -= 1
+        self._deliver(conn, conn.s2c.popleft())
+
+    def _do_ArmClose(self, act):
+        cl = self.clients[act["c"]]
+        cl.delegate.armed = act["kind"]
 
     def _kill(self, conn, reason):
         conn.state = "dead"
         # frames the client already wrote are flushed to the server only on a clean close
         self.server.disconnect(conn)
         conn.s2c.clear()
-        conn.wrapper.connectionLost(Failure(reason))
+        # Twisted logs exceptions escaping connectionLost; they count as internal failures
+        self._call_entry(conn.client, "connectionLost", conn.wrapper.connectionLost, Failure(reason))
 
     def _do_Drop(self, act):
         conn = self.conn(act["k"])
